@@ -44,6 +44,13 @@ Global Hint Rewrite segs_app_sl segs_cons_sl segs_v2_root segs_lit_repositories 
   segs_lit_blobs segs_lit_sha256 segs_lit_tags segs_lit_revisions segs_lit_data segs_lit_link segs_lit_current
   segs_lit_index segs_lit_startedat segs_lit_hashstates segs_nil : c38segs.
 
+Lemma firstn2_len (u : list N) : length u = 64%nat -> length (firstn 2 u) = 2%nat.
+Proof. intros H. rewrite firstn_length. rewrite H. reflexivity. Qed.
+Lemma forallb_firstn {A} (f : A -> bool) n l : forallb f l = true -> forallb f (firstn n l) = true.
+Proof.
+  revert n; induction l as [|c l IH]; intros [|n] H; cbn in *; auto.
+  apply andb_true_iff in H as [H1 H2]. rewrite H1. cbn. auto.
+Qed.
 Lemma firstn_nosl n u : nosl u = true -> nosl (firstn n u) = true.
 Proof.
   revert n; induction u as [|c u IH]; intros [|n] H; cbn in *; auto.
@@ -60,7 +67,8 @@ Ltac facts :=
   | H : valid_offset ?u = true |- _ => let F := fresh "F" in pose proof (valid_offset_cls u H) as F; destruct F as (? & ?); pose proof (valid_offset_nosl u H); clear H
   | H : valid_hex ?u = true |- _ =>
       pose proof (valid_hex_len u H); pose proof (valid_hex_cls u H); pose proof (valid_hex_nosl u H);
-      pose proof (valid_hex_sha u H); pose proof (valid_hex_nonnil u H); pose proof (firstn_nosl 2 u (valid_hex_nosl u H)); clear H
+      pose proof (valid_hex_sha u H); pose proof (valid_hex_nonnil u H); pose proof (firstn_nosl 2 u (valid_hex_nosl u H));
+      pose proof (firstn2_len u (valid_hex_len u H)); clear H
   | H : forallb (cs_in ?cs) ?u = true |- _ =>
       lazymatch goal with
       | _ : nosl u = true |- _ => fail
@@ -245,3 +253,13 @@ Ltac by_none := apply exec_none;
   let t1 := fresh "t1" in let t2 := fresh "t2" in let c' := fresh "c'" in
   let Hp := fresh "Hp" in let HD := fresh "HD" in
   intros t1 t2 c' Hp HD; dD HD; subst; facts; to_segs Hp.
+
+(* enumerate the positions of a keyword in a fully concrete segment list:  cells = segs x ++ kw :: Y *)
+Ltac scan_front H :=
+  lazymatch type of H with
+  | _ = segs ?x ++ _ =>
+      let Dl := fresh "Dl" in let EDl := fresh "EDl" in
+      remember (segs x) as Dl eqn:EDl; clear EDl;
+      repeat (destruct Dl as [|? Dl]; cbn [app] in H;
+              [ inj_loop H | (apply cons_inj in H; let E := fresh "E" in destruct H as [E H]) || discriminate H ])
+  end.
